@@ -12,6 +12,7 @@ use rtcverif::dtlsproxy::*;
 use rtcverif::*;
 use rustrtc::transports::dtls::{self, Certificate, DtlsState};
 use serde_json::{Value, json};
+use std::sync::Arc;
 use std::time::{Duration, Instant};
 
 fn expected_fp(mode: &str, genuine_peer: &Certificate, nobody: &Certificate, rng: &mut Rng) -> Option<String> {
@@ -192,6 +193,180 @@ async fn run_scenario(sc: &Value, rng: &mut Rng) -> Value {
            "originals": originals, "events": events, "tick_ms": tick, "deadline_ms": deadline})
 }
 
+// ------------------------------------------------------------------------------------------------
+// rustrtc against the reference implementation (webrtc-rs `dtls` 0.17.2) as the peer, same proxy.
+
+fn ref_config(cert: ::dtls::crypto::Certificate, tick: u64) -> ::dtls::config::Config {
+    use ::dtls::cipher_suite::CipherSuiteId;
+    use ::dtls::config::{Config, ExtendedMasterSecretType};
+    use ::dtls::extension::extension_use_srtp::SrtpProtectionProfile;
+    Config {
+        certificates: vec![cert],
+        cipher_suites: vec![CipherSuiteId::Tls_Ecdhe_Ecdsa_With_Aes_128_Gcm_Sha256],
+        srtp_protection_profiles: vec![
+            SrtpProtectionProfile::Srtp_Aead_Aes_128_Gcm,
+            SrtpProtectionProfile::Srtp_Aes128_Cm_Hmac_Sha1_80,
+        ],
+        extended_master_secret: ExtendedMasterSecretType::Require,
+        flight_interval: Duration::from_millis(tick),
+        insecure_skip_verify: true,
+        ..Default::default()
+    }
+}
+
+async fn run_ref_scenario(sc: &Value, rng: &mut Rng, ref_is_server: bool) -> Value {
+    use webrtc_util::conn::Conn;
+    use webrtc_util::KeyingMaterialExporter;
+    let id = sc["id"].as_str().unwrap_or("?").to_string();
+    let tick = sc["tick_ms"].as_i64().unwrap_or(40);
+    let deadline = sc["deadline_ms"].as_i64().unwrap_or(3000);
+    rustrtc::verif::set_override("dtls_retransmit_ms", Some(tick));
+    rustrtc::verif::set_override("dtls_deadline_ms", Some(deadline));
+    let _ = rustrtc::verif::take_events();
+    rustrtc::verif::set_enabled(true);
+    let ops: Vec<Op> = sc["ops"].as_array().cloned().unwrap_or_default().iter().map(Op::from_json).collect();
+
+    let ref_cert = ::dtls::crypto::Certificate::generate_self_signed(vec!["localhost".to_string()]).expect("ref cert");
+    let mut as_rustrtc = Certificate::default();
+    as_rustrtc.certificate = vec![ref_cert.certificate[0].as_ref().to_vec()];
+    let cert_own = dtls::generate_certificate().expect("cert");
+    let cert_x = dtls::generate_certificate().expect("cert");
+    let mut proxy = Proxy::bind(ops).await.expect("proxy");
+    proxy.state.lock().unpack = true;
+
+    // the reference endpoint: a connected UDP socket facing the proxy
+    let rsock = tokio::net::UdpSocket::bind("127.0.0.1:0").await.expect("bind");
+    let raddr = rsock.local_addr().unwrap();
+    rsock.connect(if ref_is_server { proxy.s_side_addr } else { proxy.c_side_addr }).await.expect("connect");
+    let rcfg = ref_config(ref_cert, tick as u64);
+
+    let (label, is_client) = if ref_is_server { ("C", true) } else { ("S", false) };
+    let exp = if ref_is_server { expected_fp(sc["fpC"].as_str().unwrap_or("match"), &as_rustrtc, &cert_x, rng) } else { None };
+    let mut ep = Endpoint::build(label, is_client, cert_own, exp, if ref_is_server { proxy.c_side_addr } else { proxy.s_side_addr })
+        .await
+        .expect("endpoint");
+    if ref_is_server {
+        proxy.start(ep.addr, raddr);
+    } else {
+        proxy.start(raddr, ep.addr);
+    }
+    let t0 = Instant::now();
+    rustrtc::verif::emit("net", "P", "reset", json!({"scenario": id, "peer": if ref_is_server { "refS" } else { "refC" }}));
+    let budget = Duration::from_millis(deadline as u64);
+    // the server side first
+    let rtask = if ref_is_server {
+        let t = tokio::spawn(async move {
+            tokio::time::timeout(budget, ::dtls::conn::DTLSConn::new(Arc::new(rsock), rcfg, false, None)).await
+        });
+        tokio::time::sleep(Duration::from_millis(5)).await;
+        ep.start();
+        t
+    } else {
+        ep.start();
+        tokio::spawn(async move {
+            tokio::time::timeout(budget, ::dtls::conn::DTLSConn::new(Arc::new(rsock), rcfg, true, None)).await
+        })
+    };
+    let rres = rtask.await;
+    let (ref_state, rconn) = match rres {
+        Ok(Ok(Ok(c))) => ("Connected".to_string(), Some(Arc::new(c))),
+        Ok(Ok(Err(e))) => (format!("Failed: {e}"), None),
+        Ok(Err(_)) => ("Failed: deadline".to_string(), None),
+        Err(e) => (format!("Panicked: {e}"), None),
+    };
+    let t_ref = t0.elapsed().as_millis() as u64;
+    // wait for the rustrtc endpoint to settle
+    let hard = Duration::from_millis(deadline as u64 + 2500);
+    while !is_terminal(&ep.dtls.get_state()) && t0.elapsed() < hard {
+        tokio::time::sleep(Duration::from_millis(2)).await;
+    }
+    let st = ep.dtls.get_state();
+    let mut obs = json!({"final": {label: state_name(&st), if ref_is_server { "S" } else { "C" }: if rconn.is_some() { "Connected" } else { "Failed" }},
+                         "ref_state": ref_state, "t_ref_ms": t_ref, "wall_hs_ms": t0.elapsed().as_millis() as u64});
+    let lbl = "EXTRACTOR-dtls_srtp";
+    if let (DtlsState::Connected(_, prof), Some(rc)) = (&st, &rconn) {
+        obs["both_connected"] = json!(true);
+        let mine = ep.dtls.export_keying_material(lbl, 60).ok();
+        let theirs = rc.connection_state().await.export_keying_material(lbl, &[], 60).await.ok();
+        obs["exporter_equal"] = json!(mine.is_some() && mine == theirs);
+        obs["keys_equal"] = obs["exporter_equal"].clone();
+        obs["master_equal"] = obs["exporter_equal"].clone();
+        let rp = rc.selected_srtpprotection_profile() as u16 as i64;
+        let mp = prof.map(|p| p as i64).unwrap_or(-1);
+        obs["profile"] = json!({label: mp, if ref_is_server { "S" } else { "C" }: rp});
+        // one application record in each direction
+        let m1 = format!("app-{id}-rustrtc");
+        let mut r1 = json!({"result": "lost"});
+        for attempt in 0..4 {
+            if ep.dtls.send(Bytes::from(m1.clone().into_bytes())).await.is_err() {
+                r1 = json!({"result": "send_error"});
+                break;
+            }
+            let mut buf = vec![0u8; 2048];
+            match tokio::time::timeout(Duration::from_millis(800), rc.recv(&mut buf)).await {
+                Ok(Ok(n)) if &buf[..n] == m1.as_bytes() => {
+                    r1 = json!({"result": "ok", "attempt": attempt});
+                    break;
+                }
+                Ok(Ok(n)) => {
+                    r1 = json!({"result": "corrupt", "len": n});
+                    break;
+                }
+                Ok(Err(e)) => {
+                    r1 = json!({"result": "closed", "err": format!("{e}")});
+                    break;
+                }
+                Err(_) => continue,
+            }
+        }
+        let m2 = format!("app-{id}-ref");
+        let mut r2 = json!({"result": "lost"});
+        for attempt in 0..4 {
+            if rc.send(m2.as_bytes()).await.is_err() {
+                r2 = json!({"result": "send_error"});
+                break;
+            }
+            match tokio::time::timeout(Duration::from_millis(800), ep.app_rx.recv()).await {
+                Ok(Some(b)) if b.as_ref() == m2.as_bytes() => {
+                    r2 = json!({"result": "ok", "attempt": attempt});
+                    break;
+                }
+                Ok(Some(b)) => {
+                    r2 = json!({"result": "corrupt", "len": b.len()});
+                    break;
+                }
+                Ok(None) => {
+                    r2 = json!({"result": "closed"});
+                    break;
+                }
+                Err(_) => continue,
+            }
+        }
+        obs["app"] = if ref_is_server { json!({"C>S": r1, "S>C": r2}) } else { json!({"S>C": r1, "C>S": r2}) };
+    } else {
+        obs["both_connected"] = json!(false);
+    }
+    let mut stray = 0;
+    while ep.app_rx.try_recv().is_ok() {
+        stray += 1;
+    }
+    obs["stray_app"] = json!(stray);
+    rustrtc::verif::emit("net", "P", "end", json!({"scenario": id}));
+    let (ops_out, originals, held) = {
+        let st = proxy.state.lock();
+        (st.ops.iter().map(|o| o.to_json()).collect::<Vec<_>>(), st.originals.clone(), st.held_count())
+    };
+    if let Some(rc) = rconn {
+        let _ = tokio::time::timeout(Duration::from_millis(200), rc.close()).await;
+    }
+    ep.shutdown().await;
+    proxy.shutdown().await;
+    rustrtc::verif::set_enabled(false);
+    let events = rustrtc::verif::take_events();
+    json!({"type": "outcome", "id": id, "scenario": sc, "ops": ops_out, "held_at_end": held, "obs": obs,
+           "originals": originals, "events": events, "tick_ms": tick, "deadline_ms": deadline})
+}
+
 fn main() {
     let args: Vec<String> = std::env::args().collect();
     if args.len() < 4 || args[1] != "run" {
@@ -218,7 +393,13 @@ fn main() {
         let res = rt.block_on(async {
             let h = tokio::spawn({
                 let sc = sc.clone();
-                async move { run_scenario(&sc, &mut r).await }
+                async move {
+                    match sc["peer"].as_str() {
+                        Some("refS") => run_ref_scenario(&sc, &mut r, true).await,
+                        Some("refC") => run_ref_scenario(&sc, &mut r, false).await,
+                        _ => run_scenario(&sc, &mut r).await,
+                    }
+                }
             });
             h.await
         });
